@@ -89,7 +89,7 @@ func TestC01(t *testing.T) {
 		mainAddr := ModuleAddr(distrtypes.DistributorMainAccount)
 		mintedCum := map[string]*big.Int{}
 		height := int64(2)
-		mintBlocks, burnBlocks, acceptedMsgs, rejectedMsgs, govShareUpdates := 0, 0, 0, 0, 0
+		mintBlocks, burnBlocks, acceptedMsgs, rejectedMsgs, govShareUpdates, scheduleResubmitted := 0, 0, 0, 0, 0, 0
 		// a second denomination for inflows (minted before the history starts)
 		FundAccount(app, v.Ctx, KeyAcc(0).Addr, sdk.NewCoins(sdk.NewCoin("uatom", sdk.NewIntFromBigInt(pow10[24]))))
 		balancesEqualSupply(t, v, "initial", &hist)
@@ -258,6 +258,15 @@ func TestC01(t *testing.T) {
 				}
 				balancesEqualSupply(t, v, "after inflow", &hist)
 			},
+			"governance_same_schedule": func(t *rapid.T) {
+				// governance submits the emission schedule in force once more (for instance together with another
+				// change): nothing about the emission may change
+				res := v.Run(&mintertypes.MsgUpdateMintersParams{Authority: GovAuthority(), StartTime: mp.StartTime, Minters: mp.Minters})
+				note("governance: the minter list in force submitted again ok=%v", res.OK())
+				if res.OK() {
+					scheduleResubmitted++
+				}
+			},
 			"governance_share_update": func(t *rapid.T) {
 				// governance re-plans one burn share or one named share through the partial update messages; the
 				// reference flow follows the message, not the store
@@ -399,6 +408,9 @@ func TestC01(t *testing.T) {
 		}
 		if govShareUpdates > 0 {
 			cl = append(cl, "shares_changed_by_governance")
+		}
+		if scheduleResubmitted > 0 {
+			cl = append(cl, "emission_schedule_submitted_again")
 		}
 		if burnBlocks > 0 {
 			cl = append(cl, "block_burned")
